@@ -64,6 +64,19 @@ func walkDecision(start *ssa.BasicBlock, assign map[string]bool, atomize Atomize
 					}
 					continue
 				}
+				// a phi that the atomizer itself names (e.g. the value picked by a loop) is an atom
+				if _, isPhi := cond.(*ssa.Phi); isPhi {
+					if atom, ok := atomize(cond); ok {
+						if val, has := assign[atom]; has {
+							if val != neg {
+								b = b.Succs[0]
+							} else {
+								b = b.Succs[1]
+							}
+							continue
+						}
+					}
+				}
 				// a phi of booleans (short-circuit value) is resolved along the path
 				cond2 := resolveAlong(cond, path)
 				if cb, ok := constBool(cond2); ok {
